@@ -261,6 +261,9 @@ def photon3d(pre, op, arg):
                 c += value
         except Exception as e:  # noqa: BLE001
             raised = e
+        if isinstance(raised, AttributeError) and "DataArray" in str(raised):
+            # the code asked the xarray stand-in for something it does not model: not a refusal by the container
+            raise symnp.Unsupported(f"xarray stand-in: {raised}")
         a = c._array
         if a is None:
             valid = True
